@@ -8,6 +8,9 @@
 //!       | `err` <step> <message>   | `panic` <step> <message>
 //!
 //! usage: c09x --out FILE     (ids: c09x-1 .. c09x-5 = W1 .. W5)
+//!
+//! `c09.rs` emits the same five witnesses as the first cases of shard 0 of every `./check C09` run
+//! (keep the two `witnesses()` lists in step).
 #[path = "../tree.rs"]
 mod tree;
 
